@@ -120,8 +120,8 @@ def signature(prop, shape, category, what):
 QUICK_SHAPES = {
     'C09': ['o2m_opt', 'm2m', 'o2o_req_casc', 'mix_opt'],
     'C10': ['o2m_req_casc', 'm2m', 'o2o_opt', 'o2m_opt'],
-    'C11': ['o2m_opt_casc', 'o2o_req', 'm2m', 'mix_opt'],
-    'C12': ['o2o_opt', 'm2m', 'mix_req_nocasc', 'o2m_opt'],
+    'C11': ['o2m_opt_casc', 'o2o_req', 'm2m', 'mix_opt', 'o2m_opt_cpk'],
+    'C12': ['o2o_opt', 'm2m', 'mix_req_nocasc', 'o2m_opt', 'mix_opt_cpk'],
     'C13': ['o2m_req_nocasc', 'o2o_req', 'mix_req_nocasc', 'o2m_opt'],
     'C14': ['o2m_opt', 'o2o_opt', 'm2m', 'o2m_req_casc'],
     'C15': ['o2m_req_casc', 'o2m_req_nocasc', 'o2o_req_casc', 'mix_req_nocasc', 'o2o_opt_childcasc'],
